@@ -4,6 +4,11 @@ From Coq Require Import ZifyBool Permutation.
 
 Definition prios (l : list entry) : list Z := map e_prio l.
 
+Lemma NoDup_app_one {A} (l : list A) x : NoDup l -> ~ In x l -> NoDup (l ++ [x]).
+Proof.
+  intros Hn Hx. eapply Permutation_NoDup; [apply Permutation_cons_append|]. constructor; assumption.
+Qed.
+
 Lemma replace_prio_prios l e : prios (fst (replace_prio l e)) = prios l.
 Proof.
   induction l as [|x r IH]; cbn [replace_prio]; [reflexivity|].
@@ -44,3 +49,189 @@ Proof.
     + unfold prios. rewrite map_app. cbn [map]. apply NoDup_app_one; [assumption|]. apply Hn. reflexivity.
     + apply Forall_app. split; [assumption|constructor; [assumption|constructor]].
 Qed.
+
+Lemma fold_add_one_inv (P : entry -> Prop) : forall es l cs l' cs',
+  NoDup (prios l) -> Forall P l -> Forall P es -> fold_left add_one es (l, cs) = (l', cs') ->
+  NoDup (prios l') /\ Forall P l'.
+Proof.
+  induction es as [|e r IH]; intros l cs l' cs' Hnd HP Hes H; cbn [fold_left] in H.
+  - inversion H; subst. auto.
+  - inversion Hes as [|? ? He Hr]; subst. destruct (add_one (l, cs) e) as [l1 cs1] eqn:E.
+    destruct (add_one_inv P l cs e l1 cs1 Hnd HP He E) as [H1 H2]. eapply IH; eauto.
+Qed.
+
+Lemma resort_perm now l : Permutation l (resort now l).
+Proof.
+  unfold resort. induction l as [|x r IH]; [constructor|]. cbn [filter].
+  destruct (e_time x <? now); cbn [negb app].
+  - constructor. exact IH.
+  - eapply Permutation_trans; [constructor; exact IH|]. apply Permutation_middle.
+Qed.
+
+Lemma evict_sub : forall n l cs, exists k, fst (evict n l cs) = skipn k l /\ (k = Nat.min n (length l)).
+Proof.
+  induction n as [|n IH]; intros l cs; cbn [evict].
+  - exists 0%nat. split; [reflexivity|lia].
+  - destruct l as [|e r]; [exists 0%nat; split; [reflexivity|cbn; lia]|].
+    destruct (IH r (bump cs (Z.to_nat (e_src e)) (-1))) as (k & Hk & Hm).
+    exists (S k). split; [exact Hk|cbn [length]; lia].
+Qed.
+
+Lemma NoDup_skipn {A} k (l : list A) : NoDup l -> NoDup (skipn k l).
+Proof.
+  revert l; induction k as [|k IH]; intros l H; [exact H|]. destruct l; [constructor|].
+  inversion H; subst. cbn [skipn]. auto.
+Qed.
+
+Lemma Forall_skipn {A} (P : A -> Prop) k l : Forall P l -> Forall P (skipn k l).
+Proof.
+  revert l; induction k as [|k IH]; intros l H; [exact H|]. destruct l; [constructor|].
+  inversion H; subst. cbn [skipn]. auto.
+Qed.
+
+Definition unfiltered (c : cfg) (e : entry) : Prop := filtered c (e_ip e) (e_port e) = false.
+
+Record Inv (c : cfg) (s : alist) : Prop := {
+  inv_nodup : NoDup (prios (items s));
+  inv_filter : Forall (unfiltered c) (items s)
+}.
+
+Lemma new_entries_unfiltered c src now addrs :
+  Forall (unfiltered c)
+    (flat_map (fun a : Z * Z * Z => let '(ip, port, prio) := a in
+                 if filtered c ip port then []
+                 else [{| e_ip := ip; e_port := port; e_src := src; e_prio := prio; e_time := now |}]) addrs).
+Proof.
+  induction addrs as [|[[ip port] prio] r IH]; [constructor|]. cbn [flat_map].
+  destruct (filtered c ip port) eqn:E; cbn [app]; [assumption|]. constructor; [exact E|assumption].
+Qed.
+
+(* every push keeps priorities unique and the filter exact, and bounds the length *)
+Theorem push_inv c s src addrs : Inv c s -> Inv c (push c s src addrs).
+Proof.
+  intros [Hnd Hf]. unfold push.
+  set (now := clock s + 1). set (es := flat_map _ addrs).
+  pose proof (new_entries_unfiltered c src now addrs) as Hes. fold es in Hes.
+  destruct (fold_left add_one es (items s, counts s)) as [l1 cs1] eqn:E.
+  destruct (fold_add_one_inv (unfiltered c) es _ _ _ _ Hnd Hf Hes E) as [H1 H2].
+  assert (H3 : NoDup (prios (resort now l1))).
+  { unfold prios. eapply Permutation_NoDup; [apply Permutation_map; apply resort_perm|exact H1]. }
+  assert (H4 : Forall (unfiltered c) (resort now l1)).
+  { eapply Permutation_Forall; [apply resort_perm|exact H2]. }
+  destruct (zlen (resort now l1) - maxItems c >? 0).
+  - destruct (evict_sub (Z.to_nat (zlen (resort now l1) - maxItems c)) (resort now l1)
+                        (bump cs1 (Z.to_nat src) (zlen es))) as (k & Hk & _).
+    destruct (evict _ _ _) as [l3 cs3]. cbn [fst] in Hk. subst l3.
+    constructor; cbn [items].
+    + unfold prios. rewrite <- skipn_map. apply NoDup_skipn. exact H3.
+    + apply Forall_skipn. exact H4.
+  - constructor; cbn [items]; assumption.
+Qed.
+
+Theorem push_bounded c s src addrs : 0 <= maxItems c -> zlen (items (push c s src addrs)) <= maxItems c.
+Proof.
+  intros Hm. unfold push.
+  destruct (fold_left add_one _ _) as [l1 cs1].
+  set (l2 := resort (clock s + 1) l1). set (cs2 := bump cs1 _ _).
+  destruct (zlen l2 - maxItems c >? 0) eqn:E.
+  - destruct (evict_sub (Z.to_nat (zlen l2 - maxItems c)) l2 cs2) as (k & Hk & Hmin).
+    destruct (evict _ _ _) as [l3 cs3]. cbn [fst items] in *. subst l3.
+    unfold zlen in *. rewrite skipn_length. lia.
+  - cbn [items]. lia.
+Qed.
+
+(* pop returns an entry of maximal priority and removes exactly it *)
+Lemma max_prio_spec : forall l best e, max_prio l best = Some e ->
+  (In e l \/ best = Some e) /\ (forall x, In x l -> e_prio x <= e_prio e) /\
+  (forall b, best = Some b -> e_prio b <= e_prio e).
+Proof.
+  induction l as [|x r IH]; intros best e H; cbn [max_prio] in H.
+  - subst best. split; [right; reflexivity|]. split; [intros ? []|]. intros b Hb; inversion Hb; lia.
+  - destruct best as [b|].
+    + destruct (e_prio b <? e_prio x) eqn:E.
+      * destruct (IH _ _ H) as (H1 & H2 & H3). specialize (H3 x eq_refl).
+        split; [destruct H1 as [H1|H1]; [left; right; exact H1|inversion H1; subst; left; left; reflexivity]|].
+        split; [intros y [<-|Hy]; [lia|auto]|]. intros b' Hb'; inversion Hb'; subst. lia.
+      * destruct (IH _ _ H) as (H1 & H2 & H3). specialize (H3 b eq_refl).
+        split; [destruct H1 as [H1|H1]; [left; right; exact H1|right; exact H1]|].
+        split; [intros y [<-|Hy]; [lia|auto]|]. intros b' Hb'; inversion Hb'; subst. lia.
+    + destruct (IH _ _ H) as (H1 & H2 & H3). specialize (H3 x eq_refl).
+      split; [destruct H1 as [H1|H1]; [left; right; exact H1|inversion H1; subst; left; left; reflexivity]|].
+      split; [intros y [<-|Hy]; [lia|auto]|]. intros b' Hb'; discriminate.
+Qed.
+
+Lemma remove_prio_spec : forall l p, NoDup (prios l) ->
+  forall x, In x (remove_prio l p) <-> In x l /\ e_prio x <> p.
+Proof.
+  induction l as [|y r IH]; intros p Hnd x; cbn [remove_prio]; [cbn; tauto|].
+  cbn [prios map] in Hnd. inversion Hnd as [|? ? Hny Hr]; subst.
+  destruct (e_prio y =? p) eqn:E.
+  - cbn [In]. split.
+    + intros Hx. split; [right; exact Hx|]. intros Hp. apply Hny. apply in_map_iff. exists x. split; [lia|exact Hx].
+    + intros [[<-|Hx] Hp]; [lia|exact Hx].
+  - cbn [In]. rewrite (IH p Hr). split.
+    + intros [<-|[Hx Hp]]; [split; [left; reflexivity|lia]|split; [right; exact Hx|exact Hp]].
+    + intros [[<-|Hx] Hp]; [left; reflexivity|right; split; assumption].
+Qed.
+
+Theorem pop_spec c s s' e : Inv c s -> pop s = (s', Some e) ->
+  In e (items s) /\ (forall x, In x (items s) -> e_prio x <= e_prio e) /\
+  (forall x, In x (items s') <-> In x (items s) /\ x <> e) /\ unfiltered c e.
+Proof.
+  intros [Hnd Hf] H. unfold pop in H. destruct (max_prio (items s) None) as [m|] eqn:E; [|discriminate].
+  inversion H; subst. cbn [items]. destruct (max_prio_spec _ _ _ E) as (H1 & H2 & _).
+  destruct H1 as [H1|H1]; [|discriminate].
+  split; [exact H1|]. split; [exact H2|]. split.
+  - intros x. rewrite (remove_prio_spec _ _ Hnd). split.
+    + intros [Hx Hp]. split; [exact Hx|]. intros ->. congruence.
+    + intros [Hx Hne]. split; [exact Hx|]. intros Hp. apply Hne.
+      (* unique priorities: same priority, same entry *)
+      clear -Hnd Hx H1 Hp. induction (items s) as [|y r IH]; [destruct Hx|].
+      cbn [prios map] in Hnd. inversion Hnd as [|? ? Hny Hr]; subst.
+      destruct Hx as [<-|Hx], H1 as [<-|H1]; auto.
+      * exfalso. apply Hny. apply in_map_iff. exists e. split; [lia|assumption].
+      * exfalso. apply Hny. apply in_map_iff. exists x. split; [lia|assumption].
+  - rewrite Forall_forall in Hf. apply Hf. exact H1.
+Qed.
+
+Theorem pop_inv c s : Inv c s -> Inv c (fst (pop s)).
+Proof.
+  intros [Hnd Hf]. unfold pop. destruct (max_prio (items s) None) as [m|]; cbn [fst]; [|constructor; assumption].
+  constructor; cbn [items].
+  - clear Hf. induction (items s) as [|y r IH]; [constructor|]. cbn [remove_prio prios map] in *.
+    inversion Hnd as [|? ? Hny Hr]; subst. destruct (e_prio y =? e_prio m); [exact Hr|].
+    cbn [prios map]. constructor; [|apply IH; exact Hr].
+    intros Hin. apply Hny. apply in_map_iff in Hin as (x & Hx & Hin). apply in_map_iff. exists x. split; [exact Hx|].
+    apply (remove_prio_spec r (e_prio m) Hr x). exact Hin.
+  - apply Forall_forall. intros x Hx. rewrite Forall_forall in Hf. apply Hf.
+    apply (remove_prio_spec (items s) (e_prio m) Hnd x). exact Hx.
+Qed.
+
+Lemma reset_inv c s : Inv c (reset s).
+Proof. constructor; cbn; constructor. Qed.
+
+Lemma init_inv c : Inv c al_init.
+Proof. constructor; cbn; constructor. Qed.
+
+(* all reachable states: any sequence of push / pop / reset *)
+Inductive aop := APush (src : Z) (addrs : list (Z * Z * Z)) | APop | AReset.
+Definition astep (c : cfg) (s : alist) (o : aop) : alist :=
+  match o with APush src a => push c s src a | APop => fst (pop s) | AReset => reset s end.
+
+Theorem reachable_inv c ops : Inv c (fold_left (astep c) ops al_init).
+Proof.
+  assert (H : forall s, Inv c s -> Inv c (fold_left (astep c) ops s)).
+  { induction ops as [|o r IH]; intros s Hs; [exact Hs|]. cbn [fold_left]. apply IH.
+    destruct o; cbn [astep]; [apply push_inv|apply pop_inv|apply reset_inv]; assumption. }
+  apply H. apply init_inv.
+Qed.
+
+(* hence nothing filtered is ever handed out for dialling: port 0, the client's own loopback
+   address, its external IP, or a blocked address *)
+Corollary popped_never_filtered c ops s' e :
+  pop (fold_left (astep c) ops al_init) = (s', Some e) -> filtered c (e_ip e) (e_port e) = false.
+Proof. intros H. eapply pop_spec in H; [|apply reachable_inv]. tauto. Qed.
+
+Example al_example : zlen (items (push {| maxItems := 2; listenPort := 6881; clientIP := None; blockRanges := None |}
+  al_init 0 [(16909060, 1, 30); (16909061, 0, 20); (16909062, 5, 10); (16909063, 5, 40)])) = 2.
+Proof. vm_compute. reflexivity. Qed.
